@@ -97,13 +97,9 @@ Definition loop_free (p : Pv.prov) : Prop :=
   (forall k, (1 <= k)%nat -> (k < Pv.nhops p)%nat -> Pv.ia p k <> Pv.ia p 0) /\
   (forall k, (S k < Pv.nhops p)%nat -> Pv.ia p k <> Pv.ia p (Pv.nhops p - 1)).
 
-(** the same, and the other side conditions of the forwarding theorem, read off the combinator's
-    path: the ASes of its hop fields in order; no hop field expired at [now]; the end hosts *)
+(** the side conditions of the forwarding theorem, read off the combinator's path: the ASes of
+    its hop fields in order; no peering slice; no hop field expired at [now]; the end hosts *)
 Definition path_ias (cp : Cb.path) : list N := map fst (flat_map Cb.sl_hops (Cb.p_slices cp)).
-Definition loop_free_path (cp : Cb.path) : Prop :=
-  let l := path_ias cp in
-  (forall k, (1 <= k)%nat -> (k < length l)%nat -> nth k l 0 <> nth 0 l 0) /\
-  (forall k, (S k < length l)%nat -> nth k l 0 <> nth (length l - 1) l 0).
 Definition no_peering (cp : Cb.path) : Prop :=
   Forall (fun sl => Cb.i_peer (Cb.sl_info sl) = false) (Cb.p_slices cp).
 Definition path_unexpired (now : N) (cp : Cb.path) : Prop :=
